@@ -244,7 +244,8 @@ def run(chk: Check, model):
     if len(conds) != 1:
         chk.unknown("C06.count", "Graph.run_supervisor cond", f"expected one lax.cond, found {len(conds)}", chk.loc(fi))
     else:
-        pred = conds[0].term
+        from ..compiled import skip_condition
+        pred = skip_condition(conds[0].term)
         chk.add("C06.count", "Graph.run_supervisor: skip predicate", pred == T.eq(T.mk_attr(_gs_after_clip(r, conds[0]), "step"), T.ZERO, numeric=True)
                 or (pred[0] == "eq0" and mentions(pred, "step")),
                 f"lax.cond predicate is {T.show(pred)[:200]}, expected graph_state.step == 0", chk.loc(fi, conds[0].node))
